@@ -42,9 +42,11 @@ def scenarios():
         # other shapes of "unknown": empty, missing, and strings built from valid arguments (substring / prefix tests)
         vs = [a for a in valid.get(p, []) if isinstance(a, str)]
         odd = {':empty': '', ':missing': None, ':valid-args-joined': ''.join(vs[:2]), ':valid-arg-prefix': (vs[0][:-1] if vs and len(vs[0]) > 1 else 'zz'),
-               ':valid-arg-upper': (vs[0].upper() if vs else 'ZZ')}
+               ':valid-arg-upper': (vs[0].upper() if vs else 'ZZ'),
+               # a pass-group file is JSON: the argument may be a list, an object or a number
+               ':list-of-valid-arg': [vs[0]] if vs else ['zz'], ':object': {(vs[0] if vs else 'zz'): 1}, ':number': 7}
         for tag, a in odd.items():
-            if a in vs:
+            if isinstance(a, str) and a in vs:
                 continue
             add(f'unknown-argument:{p}{tag}', str(a), 'UnknownArgumentError', startup=False,
                 tree={'a.c': {'text': texts['']}, 'other.txt': {'text': 'o'}},
